@@ -147,6 +147,11 @@ def make_move(key: str, labels, extra=None):
     from quansino.operations.displacement import Ball, Box, Rotation, Sphere, Translation, TranslationRotation
 
     L = lambda: np.array(labels, dtype=int)  # noqa: E731
+    if key.startswith("G[") and key.endswith("]"):  # plain CompositeMove of the listed members
+        from quansino.moves.composite import CompositeMove
+
+        parts = [make_move(k, labels) for k in key[2:-1].split(",")]
+        return CompositeMove([p[0] for p in parts]), [m for p in parts for m in p[1]]
     if "+" in key:
         parts = [make_move(k, labels) for k in key.split("+")]
         mv = parts[0][0]
@@ -166,11 +171,24 @@ def make_move(key: str, labels, extra=None):
         "transrot": lambda: TranslationRotation(),
         "ballbox": lambda: Ball(0.2) + Box(0.1),
     }
+    if key == "D_default":  # operations left to the move's own default
+        m = DisplacementMove(L())
+        return m, [m]
+    if key == "E_default":
+        m = ExchangeMove(L())
+        return m, [m]
+    if key == "C_default":
+        return CellMove(), []
+    if key == "H_default":
+        return HamiltonianDisplacementMove(), []
     if key.startswith("D_"):
         m = DisplacementMove(L(), ops[key[2:]]())
         return m, [m]
     if key.startswith("E_"):
         m = ExchangeMove(L(), ops[key[2:]]())
+        return m, [m]
+    if key.startswith(("E0_", "E1_")):  # deletion-only / insertion-only exchange move
+        m = ExchangeMove(L(), ops[key[3:]](), bias_towards_insert=float(key[1]))
         return m, [m]
     if key == "C_iso":
         return CellMove(IsotropicDeformation(0.05)), []
@@ -306,7 +324,7 @@ def _add_default(mc, mv, name, prob, key, crit_map):
     except ValueError:
         pass
     ens = type(mc).__name__
-    if "E_" in key:
+    if "E_" in key or "E0_" in key or "E1_" in key:
         c = crit_map["gc"]()
     elif "C_" in key:
         c = crit_map["isotension"]() if ens == "Isotension" else crit_map["isobaric"]()
